@@ -13,6 +13,7 @@ import StyluaModel.Generated.OpTables
 import StyluaModel.Lemmas.Paren
 import StyluaModel.Lemmas.StrLit
 import StyluaModel.Lemmas.ParserMono
+import StyluaModel.Lemmas.TypeParen
 
 namespace StyluaModel.C01
 open StyluaModel StyluaModel.ParenRule StyluaModel.Prec StyluaModel.ParenLemmas StyluaModel.Generated Expr
@@ -76,6 +77,14 @@ theorem C01_parser_answers_right (ctx : Ctx) (p : Pos) (e e' : Expr) (hd : dropO
     (hf : faithful e = true) (hok : okAt p e = true) (f : Nat)
     (h : Parser.parse f (Parser.print (fmtS repaired ctx e)) = some e') : e' = fmtS repaired ctx e :=
   ParserLemmas.parse_print_any_fuel _ _ (fmtS_good e ctx p hd hf hok).1 f h
+
+/-- **Luau types stay readable**: the type-parenthesis rule never leaves a compound type bare where
+full_moon's type parser would read it differently or reject it (`(A | B)?`, `A & (B | C)`,
+`(() -> A) | B`, …), at every depth, in every context, for every layout oracle -/
+theorem C01_type_wellformed (o : List Nat → Bool) (p : List Nat) (c : TypeParen.Ctx) (pos : TypeSpec.Pos)
+    (t : TypeParen.Ty) (hw : TypeSpec.wf pos t = true) (hc : TypeSpec.covers c pos = true) :
+    TypeSpec.wf pos (TypeParen.fmtT TypeParen.current o p c t) = true :=
+  (TypeLemmas.wf_fmtT o t pos p c hw hc).1
 
 /-- **string tokens stay one token**: the rewritten body is accepted between the chosen
 quotes by the tokenizer rule, in every dialect mode -/
